@@ -458,6 +458,13 @@ def select_cells(cells, prop, tier, seed):
     return mine
 
 
+def blank_cell_result(c):
+    return {"cell": c.name, "harness": c.harness, "wall_s": 0.0, "rc": 0, "timed_out": False, "log": "", "kind": "core",
+            "tier": c.tier, "desc": c.desc, "cls": c.cls, "verdict": "INCONCLUSIVE", "reason": "", "checks_total": 0,
+            "checks_passed": 0, "checks_unreachable": 0, "failures": [], "unwind_failures": [], "covers_sat": [],
+            "covers_unsat": [], "functions": [], "stubs": [], "cbmc_stats": {}, "harness_asserts": 0}
+
+
 def check_property(prop, tier, seed, props_meta, extra=None):
     t0 = time.time()
     cells = select_cells(load_cells(), prop, tier, seed)
@@ -476,19 +483,41 @@ def check_property(prop, tier, seed, props_meta, extra=None):
 
 def _check(prop, tier, seed, cells, scratch, t0, props_meta, extra=None):
     src = scratch / "divan"
-    try:
-        attach_modules(src, attach_list(cells))
-    except RuntimeError as e:
-        print(f"ERROR property={prop} {e}")
-        write_evidence(prop, tier, seed, [], time.time() - t0, 0, [], note=str(e))
-        return 2
-    ok, bdt, blog = build(scratch, cells[0].harness)
-    if not ok:
-        tail = "\n".join(Path(blog).read_text(errors="replace").splitlines()[-40:])
-        print(tail)
-        print(f"ERROR property={prop} scratch tree does not compile with the harness attached (see above)")
-        write_evidence(prop, tier, seed, [], time.time() - t0, 0, [], note="build failed")
-        return 2
+    # A harness file that no longer compiles against this tree (it names a private item the tree has renamed or
+    # removed) must not take the other harness files of the property down with it: it is dropped, its cells are
+    # reported INCONCLUSIVE (the check can then end with 1 if another cell finds a violation, otherwise with 2,
+    # never with 0), and the rest is built again from a fresh copy.
+    broken = []
+    for attempt in range(4):
+        try:
+            attach_modules(src, attach_list(cells))
+        except RuntimeError as e:
+            print(f"ERROR property={prop} {e}")
+            write_evidence(prop, tier, seed, [], time.time() - t0, 0, [], note=str(e))
+            return 2
+        ok, bdt, blog = build(scratch, cells[0].harness)
+        if ok:
+            break
+        text = Path(blog).read_text(errors="replace")
+        bad = set(re.findall(r"-->\s+(/\S+/harness/[A-Za-z0-9_]+\.rs):\d+", text))
+        bad_cells = [c for c in cells if str(c.file) in bad or any(str(attach_file_of(n)[0]) in bad for n in c.needs)]
+        rest = [c for c in cells if c not in bad_cells]
+        if not bad_cells or not rest or attempt == 3:
+            tail = "\n".join(text.splitlines()[-40:])
+            print(tail)
+            print(f"ERROR property={prop} scratch tree does not compile with the harness attached (see above)")
+            write_evidence(prop, tier, seed, [], time.time() - t0, 0, [], note="build failed")
+            return 2
+        first_err = next((l for l in text.splitlines() if l.startswith("error")), "compile error")
+        for c in bad_cells:
+            r = blank_cell_result(c)
+            r["reason"] = f"harness file {c.file.name} does not compile against this tree ({first_err[:160]})"
+            broken.append(r)
+            print(f"[{prop}] {c.name:<44} INCONCLUSIVE  harness file does not compile against this tree; dropped", flush=True)
+        cells = rest
+        shutil.rmtree(src, ignore_errors=True)
+        subprocess.run(["rsync", "-a", "--exclude", "/target", "--exclude", ".git", str(REPO) + "/", str(src) + "/"],
+                       check=True)
     print(f"[{prop}] built scratch tree in {bdt:.0f}s; running {len(cells)} solver queries ({tier})", flush=True)
 
     # schedule: heavy cells first, bounded by memory
@@ -530,6 +559,7 @@ def _check(prop, tier, seed, cells, scratch, t0, props_meta, extra=None):
                 print(f"[{prop}] {r['cell']:<44} {r['verdict']:<12} {r['wall_s']:>7.1f}s  {r['reason']}", flush=True)
                 results.append(r)
 
+    results += broken
     known = load_known()
     violations = []
     known_hits = []
